@@ -67,6 +67,13 @@ class C09(PropBase):
             params['tx_data_min_length'] = rng.choice([m for m in gen.MINLENS if m <= params.get('tx_data_length', 8)])
         txdl = params.get('tx_data_length', 8)
         pre = gen.prefix_len(a, 'tx')
+        release = []
+        if rng.random() < 0.25:
+            # one frame per rate-limiter window: every frame after the first is parked and released by a later pass - the identifier, the
+            # 29-bit flag and the prefix are those of the request it belongs to all the same
+            w = 0.1
+            params.update(rate_limit_enable=True, rate_limit_window_size=w, rate_limit_max_bitrate=int(txdl * 8 / w) + 1)
+            release = [{'op': 'tick', 'dt': int(w * 10**9) + 6000000}]
         ops.append({'op': 'layer', 'i': 0, 'addr': a, 'params': params})
         cap = (7 - pre) if txdl == 8 else (txdl - 2 - pre)
         rid = 0
@@ -78,6 +85,8 @@ class C09(PropBase):
                 rid += 1
                 ops.append({'op': 'send', 'i': 0, 'id': rid, 'data': gen.rand_payload(rng, n), 'tat': tat})
                 ops.append({'op': 'process', 'i': 0})
+                for o in release:
+                    ops.extend([o, {'op': 'process', 'i': 0}])
                 ops.append({'op': 'stop_sending', 'i': 0})
         # the same emission / functional rule on an ASYMMETRIC address whose two halves use different modes (prefix on one side only,
         # 11-bit ids on one side and 29-bit on the other, ...): everything on the transmit side must follow the TX half
@@ -91,6 +100,8 @@ class C09(PropBase):
                 rid += 1
                 ops.append({'op': 'send', 'i': 1, 'id': rid, 'data': gen.rand_payload(rng, n), 'tat': tat})
                 ops.append({'op': 'process', 'i': 1})
+                for o in release:
+                    ops.extend([o, {'op': 'process', 'i': 1}])
                 ops.append({'op': 'stop_sending', 'i': 1})
         # a reception with foreign frames interleaved
         prx = b''
